@@ -68,7 +68,7 @@ pub fn ref_disagrees(doc: &Doc, text: &str) -> Option<String> {
 }
 
 pub fn c01(ctx: &mut Ctx) {
-    let n: u64 = if ctx.thorough { 3_000_000 } else { 80_000 };
+    let n: u64 = if ctx.thorough { 4_000_000 } else { 200_000 };
     let variants = if ctx.thorough { 4 } else { 2 };
     for i in 0..n {
         if !ctx.mine(i) { continue; }
@@ -130,7 +130,7 @@ pub fn c04_eval(text: &str) -> Option<(String, String)> {
 }
 
 pub fn c04(ctx: &mut Ctx) {
-    let n: u64 = if ctx.thorough { 3_000_000 } else { 80_000 };
+    let n: u64 = if ctx.thorough { 4_000_000 } else { 200_000 };
     for i in 0..n {
         if !ctx.mine(i) { continue; }
         let mut r = ctx.rng(i);
@@ -341,7 +341,7 @@ fn out_of_profile(text: &str) -> bool {
 }
 
 pub fn c02(ctx: &mut Ctx) {
-    let n: u64 = if ctx.thorough { 4_000_000 } else { 150_000 };
+    let n: u64 = if ctx.thorough { 8_000_000 } else { 500_000 };
     for i in 0..n {
         if !ctx.mine(i) { continue; }
         let mut r = ctx.rng(i);
@@ -728,7 +728,7 @@ fn c11_ref_ok(doc: &Doc, text: &str) -> bool {
 pub fn c11(ctx: &mut Ctx) {
     let pieces = c11_pieces();
     let types = c11_types();
-    let maxlen = if ctx.thorough { 3 } else { 2 };
+    let maxlen = if ctx.thorough { 4 } else { 3 };
     // enumerate literals up to maxlen pieces (exhaustive), then type/default/layout (exhaustive in thorough, rotating in quick)
     let mut lits: Vec<Vec<usize>> = vec![vec![]];
     let mut layer: Vec<Vec<usize>> = vec![vec![]];
